@@ -35,6 +35,10 @@ class View:
                 self.secs.append((n, s))
 
     def sec_index(self, s):
+        if id(s) not in self.sec_of_obj:
+            from .common import ImplBroken
+            raise ImplBroken(f"a line refers to section {None if s is None else [l.name for l in s.lines]}, which is not among the sections of any network "
+                             f"(sections: {[[l.name for l in x.lines] for _, x in self.secs]})")
         return self.sec_of_obj[id(s)]
 
     def cfg_op(self, T):
@@ -179,9 +183,34 @@ def run_scenario(case, observer=None):
     info.append({"k": 0, "phase": "init", "inv": v.invariants()})
     orig_loop = ps.controller.run_control_loop
 
+    def comm_bits():
+        """what each network's controller can reach right now: per line its sensor, per disconnector its intelligent switch
+        (read from the real objects with the real reachability routine, before the control loop runs)"""
+        from relsad.topology.ICT.dfs import is_connected
+        def reach(ctrl, dev):
+            if dev is None:
+                return False
+            if ctrl.ict_node is None:
+                return True
+            if dev.ict_node is None:
+                return False
+            return bool(is_connected(node_1=ctrl.ict_node, node_2=dev.ict_node, network=ctrl.ict_network))
+        rs = "".join("1" if reach(l.parent_network.controller, l.sensor) else "0" for l in v.lines)
+        ri = "".join("1" if reach(d.line.parent_network.controller, d.intelligent_switch) else "0" for d in v.discons)
+        return rs or "-", ri or "-"
+
+    def automatic_now():
+        c = ps.controller
+        return type(c).__name__ == "MainController" and c.state.name == "OK"
+
     def loop(curr_time, dt):
+        if automatic_now():
+            rs, ri = comm_bits()
+            op = f"ctl astep {fr(dt.get_hours())} {rs} {ri}"
+        else:
+            op = f"ctl step {fr(dt.get_hours())}"
         orig_loop(curr_time=curr_time, dt=dt)
-        ops.append(f"ctl step {fr(dt.get_hours())}")
+        ops.append(op)
         impl.append(show(v.snapshot()))
         rec = {"k": state["k"], "phase": "step", "inv": v.invariants(), "normal": v.is_normal(),
                "cb_open": {n.name: n.connected_line.circuitbreaker.is_open for n in v.nets},
